@@ -58,3 +58,49 @@ func TestGenParseRate(t *testing.T) {
 		t.Fatalf("fewer than half of the generated modules parse (%d of %d)", ok, len(ms))
 	}
 }
+
+// Development aid: parse rates of the systematic families and of the new mutation kinds.
+func TestFamiliesParseRate(t *testing.T) {
+	report := func(name string, ms []Module) {
+		ok := 0
+		bad := map[string]int{}
+		for _, m := range ms {
+			if _, o := Parse(m); o {
+				ok++
+			} else {
+				parts := strings.Split(m.Src, ":")
+				k := strings.Join(parts[:min(3, len(parts))], ":")
+				bad[k]++
+				if os.Getenv("VERBOSE") != "" {
+					fmt.Fprintf(os.Stderr, "--- %s does not parse\n%s\n", m.Src, m.Text)
+				}
+			}
+		}
+		fmt.Fprintf(os.Stderr, "%s: parsed %d of %d; unparsed by kind: %v\n", name, ok, len(ms), bad)
+		if ok*2 < len(ms) {
+			t.Errorf("%s: fewer than half parse", name)
+		}
+	}
+	report("uncompilable", UncompilableModules())
+	report("comment-placement", CommentPlacementModules(false))
+	report("comment-placement-deep", CommentPlacementModules(true))
+	r := hutil.NewRng(3)
+	base := GenModules(r, 150)
+	base = append(base, StressModules(1)...)
+	for _, k := range []string{"shadow-imports", "dup-heads", "uncompilable-body", "comments-at-boundaries"} {
+		var ms []Module
+		same := 0
+		for i, b := range base {
+			if _, o := Parse(b); !o {
+				continue
+			}
+			tx := mutate(r, k, b.Text)
+			if tx == b.Text {
+				same++
+				continue
+			}
+			ms = append(ms, Module{Name: fmt.Sprintf("m%d.rego", i), Text: tx, Src: "mut:" + k})
+		}
+		report(fmt.Sprintf("mutation %s (unchanged %d)", k, same), ms)
+	}
+}
